@@ -54,7 +54,8 @@ inductive Outcome where
 
 inductive Dev where
   | file      -- file_stream_device (file name and FILE*)
-  | stream    -- istream_device
+  | stream    -- istream_device over a std::ifstream (seeking beyond the end succeeds)
+  | sstream   -- istream_device over a std::istringstream (seeking beyond the end fails: failbit without eofbit)
   deriving DecidableEq, Repr
 
 inductive Entry where
@@ -114,7 +115,7 @@ def readSome (n : Nat) : M (List Nat) := fun s =>
   else
     let got := s.rest.take n
     let hitEnd := s.rest.isEmpty || got.length < n
-    .ok (got, { s with pos := s.pos + got.length, rest := s.rest.drop n, failed := s.dev == .stream && hitEnd })
+    .ok (got, { s with pos := s.pos + got.length, rest := s.rest.drop n, failed := s.dev != .file && hitEnd })
 
 /-- fixed-size array read `read(T(&)[N])`: both devices check the count and throw on a short read
     (istream_device since /repo cdb7c21; before that it returned the uninitialised array) -/
@@ -140,10 +141,15 @@ def seekSet (off : Int) : M Unit := fun s =>
     if s.failed then .ok ((), s)
     else if off < 0 then .ok ((), { s with failed := true })
     else .ok ((), { s with pos := off.toNat, rest := s.data.drop off.toNat })
+  | .sstream =>
+    if s.failed then .ok ((), s)
+    else if off < 0 ∨ off > Int.ofNat s.data.length then .ok ((), { s with failed := true })
+    else .ok ((), { s with pos := off.toNat, rest := s.data.drop off.toNat })
 
 /-- `seek(d, SEEK_CUR)` for d ≥ 0 (the only use): skips forward -/
 def seekCur (d : Nat) : M Unit := fun s =>
-  if s.dev == .stream && s.failed then .ok ((), s)
+  if s.dev != .file && s.failed then .ok ((), s)
+  else if s.dev == .sstream && s.pos + d > s.data.length then .ok ((), { s with failed := true })
   else .ok ((), { s with pos := s.pos + d, rest := s.rest.drop d })
 
 /-- fuel for a loop that consumes at least one input byte per iteration: the bytes left, plus one -/
@@ -1156,9 +1162,9 @@ def rleCopyRows (i : Info) (st : Settings) (dimx : Int) (bpp : Nat) (data : List
 /-- read_rle_data -/
 def readRleData (i : Info) (st : Settings) (dimx dimy : Int) (d : Dest) : M Dest := do
   let bpp := (i.bpp / 8).toNat
-  -- size_t image_size = _info._width * _info._height * bytes_per_pixel   (uint16 * uint16 * uint8 in int)
-  if !inS32 (i.width * i.height) ∨ !inS32 (i.width * i.height * bpp) then
-    ubAt ("signed-integer-overflow@" ++ fRle) "_info._width * _info._height * bytes_per_pixel overflows int"
+  -- size_t image_size = static_cast<size_t>(_info._width) * _info._height * bytes_per_pixel
+  --   (/repo 84b4471; before that the product was formed in int and overflowed for e.g. 30000 x 30000 x 3)
+  if False then ioErr
   else
     let imageSize := (i.width * i.height * bpp).toNat
     alloc imageSize
